@@ -24,7 +24,7 @@ from ..common import Report, MachineryError, seed, quiet, workdir, WORK
 
 PROPS = {
     "C19": dict(level="model_checking",
-                technique="TLC exhaustive on W90Store.tla (MC_W90Files: every small file object; MC_W90Cont: WannierData state machine over all action sequences up to the bound) + replay of every TLC file-object state and of the container behaviours (every behaviour that saves or loads plus a seeded sample of the others) on the real w90files classes and files + TLC validation of recorded real calls",
+                technique="TLC exhaustive on W90Store.tla (MC_W90Files: every small file object; MC_W90Cont: WannierData state machine over all action sequences up to the bound) + replay of every TLC file-object state and of the container behaviours (every behaviour that loads from .npz plus a seeded sample of the others, those that save or write first) on the real w90files classes and files + TLC validation of recorded real calls",
                 text="TLC checks TextRoundTrip / NpzRoundTrip / NpzKeys on every file object with NK 1..3, NB 1..3, NW 1..NB, several NNB in 2..6 "
                      "(full and irreducible k-point sets, bk_reorder tables, .amn with the optional projection tags, checkpoint with "
                      "selected_bands) and ContRoundTrip / ContConsistent / ChkFollowsAmn / WriteReadable on every sequence of container "
@@ -140,10 +140,22 @@ def classes():
     return _CLASSES
 
 
-def build(o):
-    """canonical object -> real file object"""
+def ordered(d, order):
+    """the per-k-point dictionary with its keys inserted in the given order: "ascending", "reversed" (irreducible points
+    computed last-first) or "rotated" (points completed later).  The object is the same function k -> table."""
+    ks = sorted(d)
+    if order == "reversed":
+        ks = ks[::-1]
+    elif order == "rotated" and len(ks) > 1:
+        ks = ks[len(ks) // 2:] + ks[:len(ks) // 2]
+    return {k: d[k] for k in ks}
+
+
+def build(o, order="ascending"):
+    """canonical object -> real file object (order: insertion order of the k-points in the data dictionaries)"""
     C = classes()
     cls, a, d = o["cls"], o["attr"], o["dic"]
+    d = {t: ordered(v, order) for t, v in d.items()}
     with quiet():
         if cls == "eig":
             return C[cls](data={k: np.array(v, dtype=float) / 8 for k, v in d["data"].items()}, NK=a["NK"])
@@ -459,16 +471,25 @@ class FileReplay:
                 else:
                     got = try_tokens(seedw + "." + cls, NCOMMENT[cls])
                     self.note(f"{cls}.to_w90_file:tokens_as_modelled" if got == lines else f"{cls}.to_w90_file:tokens_differ_from_model")
-                    # the statement: the real file through the real reader gives the data back
-                    y, exr = real_read(cls, seedw, bk)
-                    if exr is not None:
-                        self.rep.violation(f"{cls.upper()}.from_w90_file:exception", dict(info, exception=exr, file="written by to_w90_file"))
-                    else:
-                        gp, prob = try_project(y, cls)
-                        if gp is None or gp["dic"]["data"] != p0["dic"]["data"] or gp["dim"] != p0["dim"]:
-                            self.rep.violation(f"{cls.upper()}.from_w90_file:roundtrip",
-                                               dict(info, what="reader output differs from what was written", problem=prob,
-                                                    expected_dim=p0["dim"], got_dim=None if gp is None else gp["dim"]))
+                    # the statement: the real file through the real reader gives the data back - whatever the order in which the
+                    # k-points were put into the object's dictionary
+                    for order in ("ascending", "reversed", "rotated") if par[1] > 1 else ("ascending",):
+                        if order != "ascending":
+                            xo = build(o, order)
+                            _, exw = call_writer(xo, seedw, bk)
+                            if exw is not None:
+                                self.rep.violation(f"{cls.upper()}.to_w90_file:exception", dict(info, exception=exw, insertion_order=order))
+                                continue
+                        y, exr = real_read(cls, seedw, bk)
+                        if exr is not None:
+                            self.rep.violation(f"{cls.upper()}.from_w90_file:exception",
+                                               dict(info, exception=exr, file="written by to_w90_file", insertion_order=order))
+                        else:
+                            gp, prob = try_project(y, cls)
+                            if gp is None or gp["dic"]["data"] != p0["dic"]["data"] or gp["dim"] != p0["dim"]:
+                                self.rep.violation(f"{cls.upper()}.from_w90_file:roundtrip",
+                                                   dict(info, what="reader output differs from what was written", problem=prob, insertion_order=order,
+                                                        expected_dim=p0["dim"], got_dim=None if gp is None else gp["dim"]))
                 # the specification's table (Wannier90 layout) through the real reader
                 seedr = os.path.join(d, "r")
                 render(cls, lines, seedr)
@@ -492,6 +513,8 @@ class FileReplay:
                 self.note(f"{cls}:partial_k_object_written_without_error")
         # ---- npz
         path = os.path.join(d, f"x.{cls}.npz")
+        if par[1] > 1 and par[6] % 2 == 1 and cls != "chk":
+            x = build(o, "reversed")            # the npz path with the k-points inserted last-first
         _, ex = call(x.to_npz, path)
         if ex is not None:
             self.rep.violation(f"{cls}.to_npz:exception", dict(info, exception=ex))
@@ -764,11 +787,12 @@ def record_calls(rep, vio, rng, n, wd):
         d = os.path.join(wd, f"r{it}")
         os.makedirs(d, exist_ok=True)
         try:
-            x = build(o)
+            order = rng.choice(["ascending", "reversed", "rotated"])
+            x = build(o, order)
             bko = random_obj(rng, "bkvec", nk=o["dim"]["NK"], nnb=o["dim"].get("NNB", 2))
             bk = build(bko)
             rec = dict(kind=kind, cls=cls, obj=to_json_obj(o), bk=to_json_obj(bko), has_perm=False, perm=[])
-            m = dict(kind=kind, cls=cls, dims=o["dim"])
+            m = dict(kind=kind, cls=cls, dims=o["dim"], insertion_order=order)
             if kind == "write":
                 _, ex = call_writer(x, os.path.join(d, "w"), bk)
                 if ex:
@@ -876,7 +900,9 @@ def precision_calls(vio, rng, n, wd):
         os.makedirs(d, exist_ok=True)
         obs["cases"] += 1
         try:
-            x, ex = call(C[cls], data={k: v.copy() for k, v in data.items()}, NK=nk)
+            ks = list(data)
+            rng.shuffle(ks)                         # insertion order of the k-points: any
+            x, ex = call(C[cls], data={k: data[k].copy() for k in ks}, NK=nk)
             if ex:
                 vio.violation(f"{cls}.__init__:exception", dict(meta=m, exception=ex))
                 continue
@@ -1020,10 +1046,12 @@ def _check(rep, pid, tier):
 
     rep.rule("TLC enumerates every file object inside (NK, NB, NW, NNB, k-point subsets, patterns, optional tags) and every sequence of "
              "container actions up to MAXLEN; a case = one file-object state executed on the real classes, one container behaviour "
-             "executed on a real WannierData (every behaviour that saves or loads, a seeded sample of the others), one seeded random "
+             "executed on a real WannierData (every behaviour that loads from .npz, a seeded sample of the others), one seeded random "
              "recorded call validated by TLC, or one seeded random non-dyadic object")
     rep.assume("exact part: data are multiples of 1/8, exactly printed by the text formats; printed precision is the business of the numeric part `precision`")
     rep.assume("the b-vector table needed by .mmn files is a (NK,1,1) mesh with the first NNB axis neighbours")
+    rep.assume("a file object is the function k-point -> table; the order in which the k-points were inserted into its dictionary is an "
+               "input class of the harness (ascending, reversed, rotated), not part of the object")
 
     # ---------------- file objects
     fconst = dict(CLS=ALLCLS, NKS="{1, 2, 3}", NBS="{1, 2, 3}", NNBS="{2, 3, 4, 5, 6}" if thorough else "{2, 3, 6}", PATS="{1, 2}" if thorough else "{1}")
@@ -1082,14 +1110,18 @@ def _check(rep, pid, tier):
     if len(states) != stc["distinct"]:
         raise MachineryError("container dump: behaviours are not distinct states")
     pool = collect_pool(states)
-    nmax = 6000 if thorough else 700
+    nmax = 15000 if thorough else 700
     nleaves = len(leaves)
     leaves.sort(key=lambda s: repr(ContReplay.hkey(s["hist"])))          # the dump order of TLC is not deterministic
+
+    def prio(s):
+        ops = {e["op"] for e in s["hist"]}
+        return 0 if "from_npz" in ops else 1 if ops & {"to_npz", "write"} else 2
     if len(leaves) > nmax:
-        # every behaviour that saves, loads or writes, a seeded sample of the others
+        # every behaviour that loads (the round trips of the statement), then a seeded sample of those that save or write, then of the others
         rng.shuffle(leaves)
-        leaves.sort(key=lambda s: 0 if any(e["op"] in ("to_npz", "from_npz", "write") for e in s["hist"]) else 1)
-        must = sum(1 for s in leaves if any(e["op"] in ("to_npz", "from_npz", "write") for e in s["hist"]))
+        leaves.sort(key=prio)
+        must = sum(1 for s in leaves if prio(s) == 0)
         leaves = leaves[:max(nmax, must)]
     cr = ContReplay(vio, wd, states)
     followed = 0
